@@ -541,4 +541,15 @@ class FinancialAssetMarket(Market):
         self.IssuerShortCode = issuer_short_code
         self.SearchListSource = self.CurrencyZone
 
-
+    def _CheckSingleIssuer(self, issuers):
+        """
+        A financial asset has exactly one issuer; like Market._SearchSupplier, refuse to
+        generate equations otherwise.
+        :param issuers: list
+        :return: None
+        """
+        if len(issuers) == 0:
+            raise LogicError('No issuer {0} for financial asset market {1}'.format(self.IssuerShortCode, self.Code))
+        if len(issuers) > 1:
+            raise LogicError('More than one sector with issuer code {0} for financial asset market {1}'.format(
+                self.IssuerShortCode, self.Code))
